@@ -148,6 +148,14 @@ SCRIPTED = [
     # the same child asked twice, then a window that contains it
     [(0, "ckd", 1), (0, "ckd", 1), (0, "generate_children", (0, 2)), (0, "generate_children", (1, 3)), (0, "ckd", 1)],
     [(0, "handle_ckd", "m/1/2", 0), (0, "handle_ckd", "m/1/2", 0), (0, "handle_children", "m/1/2", (0, 2)), (0, "handle_ckd", "m/1/2", 2 ** 31), (0, "handle_ckd", "m/1/2", 2 ** 31)],
+    # single children derived OUT OF ORDER, then windows whose ends / length coincide with what sits in `children`
+    [(0, "ckd", 0), (0, "ckd", 5), (0, "ckd", 2), (0, "generate_children", (0, 3)), (0, "generate_children", (0, 3))],
+    [(0, "ckd", 0), (0, "ckd", 1), (0, "ckd", 7), (0, "generate_children", (0, 3)), (0, "generate_children", (5, 8))],
+    [(0, "ckd", 4), (0, "ckd", 1), (0, "ckd", 2), (0, "generate_children", (0, 3)), (0, "generate_children", (4, 5)), (0, "generate_children", (1, 3))],
+    [(0, "generate_children", (3, 6)), (0, "generate_children", (0, 3)), (0, "generate_children", (3, 6)), (0, "generate_children", (0, 6))],
+    [(0, "handle_ckd", "m/0", 0), (0, "handle_ckd", "m/0", 7), (0, "handle_ckd", "m/0", 2), (0, "handle_children", "m/0", (0, 3)), (0, "handle_children", "m/0", (1, 3))],
+    [(0, "ckd", 2 ** 31), (0, "ckd", 1), (0, "ckd", 2 ** 31 + 2), (0, "generate_children", (2 ** 31, 2 ** 31 + 3)), (0, "generate_children", (0, 2))],
+    [(2, "handle_ckd", "m/0", 0), (2, "handle_ckd", "m/0", 9), (2, "handle_ckd", "m/0", 2), (2, "handle_children", "m/0", (0, 3)), (2, "addr", "m/0", "p2wpkh_address")],
     # two generators on one node, then bulk generation
     [(0, "gen", [None, None]), (0, "gen", [0, 2]), (0, "generate_children", (0, 4)), (0, "gen", [5, None, 0])],
     # BIP85 after/before foreign paths, all applications
